@@ -97,7 +97,7 @@ def slow_rules(root: Path, config: dict, path: Path, limit: float):
         except Exception:  # noqa: BLE001
             pass
         dt = time.process_time() - t0
-        if dt > limit / 4:
+        if dt > limit / 4:       # limit = the CPU time of the whole slow run: rules that account for a quarter of it
             out.append([rule.rule_id, round(dt, 2)])
     return out
 
@@ -118,6 +118,10 @@ def main(jobs_path: str, out_path: str) -> int:
         p.write_text(text, encoding="utf-8")
         sibs.append(p)
     baselines: dict[str, list] = {}
+    t_ref: dict[str, float] = {}
+    sib_bytes = sum(p.stat().st_size for p in sibs)
+    factor = float(job.get("hang_factor", 100.0))
+    lint(root, CONFIGS["default"], sibs, "files", faillog)      # warm-up (imports, rule discovery): not timed
     with open(out_path, "a", encoding="utf-8") as out:
         def emit(obj):
             out.write(json.dumps(obj) + "\n")
@@ -129,7 +133,9 @@ def main(jobs_path: str, out_path: str) -> int:
             if bkey not in baselines:
                 emit({"start": "baseline:" + bkey})
                 vs, crash, fails, cpu = lint(root, CONFIGS[ck], sibs, mode, faillog)
+                vs2, _c2, _f2, cpu2 = lint(root, CONFIGS[ck], sibs, mode, faillog)    # reference workload, measured twice in this very worker
                 baselines[bkey] = vs
+                t_ref[bkey] = max(0.05, min(cpu, cpu2))
                 by_file: dict[str, list] = {}
                 for v in vs or []:
                     by_file.setdefault(v[1], [])
@@ -145,7 +151,11 @@ def main(jobs_path: str, out_path: str) -> int:
             t0 = time.time()
             vs, crash, fails, cpu = lint(root, CONFIGS[ck], paths, mode, faillog)
             wall = time.time() - t0
-            res = {"id": case["id"], "crash": crash, "failures": fails, "cpu": round(cpu, 3), "wall": round(wall, 3)}
+            # the `hang` clause, calibrated in this run: `factor` times what a healthy file set of the same total size costs here and now
+            expected = t_ref[bkey] * (1.0 + len(base64.b64decode(case["data"])) / max(1, sib_bytes))
+            limit = factor * expected
+            res = {"id": case["id"], "crash": crash, "failures": fails, "cpu": round(cpu, 3), "wall": round(wall, 3),
+                   "t_ref": round(t_ref[bkey], 3), "expected": round(expected, 3), "cpu_limit": round(limit, 2)}
             if vs is not None:
                 sib_vs = [v for v in vs if v[1] != case["name"]]
                 res["own"] = len(vs) - len(sib_vs)
@@ -160,9 +170,9 @@ def main(jobs_path: str, out_path: str) -> int:
                 res["lang"] = detect_language(off)
             except BaseException as e:  # noqa: BLE001
                 res["lang"] = f"<raised {type(e).__name__}>"
-            if cpu > case.get("cpu_limit", 1e9):
+            if cpu > limit / 5:
                 try:
-                    res["slow_rules"] = slow_rules(root, CONFIGS[ck], off, case["cpu_limit"])
+                    res["slow_rules"] = slow_rules(root, CONFIGS[ck], off, cpu)
                 except BaseException as e:  # noqa: BLE001
                     res["slow_rules"] = [["<attribution failed: %s>" % type(e).__name__, 0]]
             off.unlink()
